@@ -772,6 +772,9 @@ def check_C05(tier):
         if v is None or v[0] != "ok":
             violations.append(viol(pid, r, "packed lookup differs from the dense table",
                                    {"state_symbol": v[1:] if v else None}))
+    # (2b) the text of the packed arrays / the plain table as the emitters print it = the emission model's (read-back theorems C05_emit_*)
+    et, emit_n, _, _ = emit_ties([r.case["src"] for r in results if r.refused is None][:400 if tier == "quick" else 4000], keys=("Packed", "Dense"))
+    ties += et
     # (3) the compiled generated parsers: packed vs -u, global and -o forms, on every input
     res = x_sweep(tier, rng, n=20 if tier == "quick" else 150, variants=[v for v in xrun.VARIANTS if v[0] == "go"])
     ties += x_build_ties(res)
@@ -796,7 +799,7 @@ def check_C05(tier):
     cov = std_cov(results, len(mats) + cells + pairs,
                   "random integer matrices (1x1..12x12, densities 0-100%, negatives, equal rows, empty first column) + the F5 matrix through PackTable/UnPackTable; " + GEN_RULE +
                   "; every (state, symbol) cell of every packed grammar looked up through the implementation's five arrays with the generated Action logic",
-                  samples, {"matrices": len(mats), "cells": cells, "packed_vs_unpacked_runs": pairs, "dense_tables_meeting_DenseSimple": simple,
+                  samples, {"matrices": len(mats), "cells": cells, "packed_vs_unpacked_runs": pairs, "emitted_table_texts_compared_with_emission_model": emit_n, "dense_tables_meeting_DenseSimple": simple,
                             "partial": ["PackTable/TrySplitTable themselves are hand-modelled (packA/trySplit) and tied by the per-run array comparison; the Action method of both Go templates is translated (Gen/Action.lean) and proved equal to the lookup model"]})
     return common.conclude(pid, tier, "proof", proof, ties, violations, cov, [])
 
@@ -1194,6 +1197,88 @@ def subst_ties(sources):
     return ties, n, panics
 
 
+def code_tokens(text):
+    """the token sequence a Go / TypeScript compiler sees: comments and white space dropped, string literals kept whole"""
+    out, i, n = [], 0, len(text)
+    while i < n:
+        ch = text[i]
+        if ch.isspace():
+            i += 1
+        elif text.startswith("/*", i):
+            j = text.find("*/", i + 2)
+            i = n if j < 0 else j + 2
+        elif text.startswith("//", i):
+            j = text.find("\n", i)
+            i = n if j < 0 else j
+        elif ch == '"':
+            j = i + 1
+            while j < n and text[j] != '"':
+                j += 2 if text[j] == "\\" else 1
+            out.append(text[i:j + 1])
+            i = j + 1
+        elif ch.isalnum() or ch in "_$":
+            j = i
+            while j < n and (text[j].isalnum() or text[j] in "_$"):
+                j += 1
+            out.append(text[i:j])
+            i = j
+        else:
+            out.append(ch)
+            i += 1
+    return out
+
+
+def emit_ties(sources, keys=None):
+    """the emission model (Model/Emit: constant block, table text, translate switch, trace tables of the Go and
+    TypeScript emitters) must print exactly the text the emitters leave in the builder, for the packed Go file,
+    the plain Go file and the TypeScript file; returns (ties, parts compared, parts skipped (non-ASCII %q), decoded
+    implementation parts per case)"""
+    cases = [{"id": "e%d" % i, "src": src} for i, src in enumerate(sources)]
+    inp = "".join(json.dumps(c) + "\n" for c in cases).encode()
+    p = common.sh([common.BIN + "/yharness", "emit"], inp=inp, timeout=900)
+    iblocks = parse_blocks(p.stdout.decode(errors="replace"), "ECASE", "EEND")
+    mo = common.sh([common.YMODEL], inp=p.stdout, timeout=900)
+    mblocks = parse_blocks(mo.stdout.decode(errors="replace"), "ECASE", "EEND")
+    ties, n, skipped, texts = [], 0, 0, {}
+    dec = lambda h: "" if h == "-" else bytes.fromhex(h).decode(errors="replace")
+    for c in cases:
+        b, m = iblocks.get(c["id"]), mblocks.get(c["id"])
+        if b is None or any(l.startswith("REFUSE") for l in b):
+            continue
+        if m is None:
+            ties.append({"what": "emission model gave no answer", "case": c["id"], "src": c["src"][:1500]})
+            continue
+        iv = {}
+        for l in b:
+            t = l.split()
+            if t[0] == "EP":
+                iv[(t[1], t[2])] = t[3] if len(t) > 3 else "PANIC"
+        mv = {}
+        for l in m:
+            t = l.split()
+            if t[:2] == ["M", "EP"]:
+                mv[(t[2], t[3])] = t[4]
+        texts[c["src"]] = {k: dec(v) for k, v in iv.items() if v != "PANIC"}
+        for k in sorted(set(iv) | set(mv)):
+            if keys is not None and k[1] not in keys:
+                continue
+            if mv.get(k) == "SKIP":
+                skipped += 1
+                continue
+            n += 1
+            same = iv.get(k) == mv.get(k)
+            if not same and iv.get(k) not in (None, "PANIC") and mv.get(k) is not None:
+                # white space and comments are not part of the claim: the compilers do not see them
+                same = code_tokens(dec(iv[k])) == code_tokens(dec(mv[k]))
+            if not same:
+                a = dec(iv[k]) if iv.get(k) not in (None, "PANIC") else str(iv.get(k))
+                bb = dec(mv[k]) if mv.get(k) is not None else "None"
+                j = next((i for i in range(min(len(a), len(bb))) if a[i] != bb[i]), min(len(a), len(bb)))
+                ties.append({"what": "text of the emission model differs from the emitter (%s %s)" % k, "case": c["id"],
+                             "src": c["src"][:1500], "impl": a[max(0, j - 60):j + 60], "model": bb[max(0, j - 60):j + 60]})
+    return ties, n, skipped, texts
+
+
 def check_C07(tier):
     pid = "C07"
     rng = random.Random(common.seed() * 1000003 + 7)
@@ -1297,6 +1382,10 @@ def check_C17(tier):
     t2, nruns = x_model_ties(res, variants=govars)
     ties += t2
     ties += driver_cert_ties(res, variants=govars)
+    # the two trace tables (symbol names, rule texts) as the emitter prints them = the emission model's text
+    et, emit_n, emit_skipped, _ = emit_ties([res["meta"]["%s|%s" % (c["id"], govars[0][3])]["src"] for c in res["usable"]],
+                                            keys=("TranslateTrace", "ReduceTrace"))
+    ties += et
     violations, samples = [], []
     lines_checked = 0
     parsed_kinds = {"S": 0, "R": 0}
@@ -1405,7 +1494,7 @@ def check_C17(tier):
                      "example": unparseable[0]["replay"].get("trace", [])[:6] if isinstance(unparseable[0].get("replay"), dict) else None})
     else:
         violations += unparseable
-    cov = {"evaluations": lines_checked, "distinct_nontrivial": len(res["usable"]),
+    cov = {"evaluations": lines_checked, "trace_table_texts_compared_with_emission_model": emit_n, "trace_table_texts_not_compared_non_ascii": emit_skipped, "distinct_nontrivial": len(res["usable"]),
            "rule": "Go variants (global and -o, packed and -u) with IsTrace = true; every printed line of every run replayed against the implementation's LR(0) automaton (core dump of the same grammar) and the reduction log; evaluations = trace lines",
            "samples": samples, "runs_total": nruns, "programs": len(res["usable"]) * len(govars),
            "disagreements_checked": len(ties) + len(violations), "trusted_base": TRUSTED}
@@ -2102,7 +2191,10 @@ def check_C11(tier):
             for c, why in bad:
                 violations.append({"key": common.finding_key({"src": c["src"], "k": key[1]}), "what": "token codes / lexer interface: " + why,
                                    "replay": {"property": pid, "grammar_file": c["src"], "why": why}})
-    cov = {"evaluations": len(cases) * 3, "distinct_nontrivial": accepted,
+    # the const block and the translate switch as the emitters print them = the emission model's text (read-back theorems C11_emit_*)
+    et, emit_n, _, _ = emit_ties([c["src"] for c in cases] + [gen.render(sp) for sp in HAND_SPECS], keys=("Const", "Translate"))
+    ties += et
+    cov = {"evaluations": len(cases) * 3, "distinct_nontrivial": accepted, "emitted_texts_compared_with_emission_model": emit_n,
            "rule": "random declaration mixes: explicit numbers near literal codes and near the automatic range, character literals, tagged/untagged tokens, tokens declared via %token or only via %left/%right/%nonassoc or (literals) only used in rules; front end in-process + generated Go and TypeScript files scraped for the const block and the translate switch; distinct = accepted mixes",
            "samples": samples, "programs": accepted * 2, "disagreements_checked": len(ties) + len(violations), "trusted_base": TRUSTED}
     return common.conclude(pid, tier, C11_LEVEL, proof, ties[:50], violations, cov,
